@@ -127,6 +127,8 @@ type Eng struct {
 	mathTerms [][3]string
 	valueFieldTypes map[string]bool
 	wfFrontier string
+	siteHits map[*SiteSpec]int
+	modelIDs map[int]bool
 	regionElemType map[string]types.Type
 	regionKeySort map[string]string
 	pendingNonNil map[string]bool
@@ -662,8 +664,8 @@ func (e *Eng) oblige(kind, key string, props []string, pos token.Pos, guard, phi
 	e.obls = append(e.obls, o)
 	e.sc.comment(fmt.Sprintf("OBLIGATION %d %s @%s", o.ID, o.Name, o.Pos))
 	wm := e.wantModels
-	if modelIDs != nil {
-		wm = modelIDs[o.ID]
+	if e.modelIDs != nil {
+		wm = e.modelIDs[o.ID]
 		check = check && wm
 	}
 	// obligations at the end of a path (lock invariants at Unlock, postconditions, loop steps) are not
